@@ -1,4 +1,5 @@
 import PikaVerif.Lemmas.JoinCatch
+import PikaVerif.Lemmas.JoinCatchProgress
 /-!
 # C13, follow-up C13j: joins of a task whose user code handled an earlier `thread_interrupted`
 
@@ -183,6 +184,34 @@ theorem C13j_caught_effect (s s' : JoinCatch.St) (o : Nat) (hs : JoinCatch.step 
     intro t ht; simp [upd, ht]
   · simp at hs
 
+/-! ## join always returns, also after handled interruptions -/
+
+/-- the environment's choices are those of the join model (`C13.External`); an exception that propagates is never at
+    rest (it reaches a handler of the user code — `caught` — or the one of `thread_function_nullary`) -/
+def External (s : JoinCatch.St) : JoinCatch.Ev → Prop
+  | .base e => C13.External s.base e
+  | .caught _ => False
+
+def Stuck (s : JoinCatch.St) : Prop := ∀ e, JoinCatch.step s e ≠ none → External s e
+
+/-- **join always returns (progress), for tasks that handled interruptions as well.**  The statement of
+    `C13_join_returns` over the reachable states of `JoinCatch`: in a stuck state every task is outside `join` or
+    suspended in `join` without a wake-up token while ITS target has not left its thread function; no task is inside its
+    exit-callback processing, at an interruption delivery or in an unhandled unwinding. -/
+theorem C13j_join_returns (s : JoinCatch.St) (hr : Reachable s) (hs : Stuck s) :
+    (∀ j, s.base.jpc j = .out ∨ ∃ h o, s.base.jpc j = .susp h o ∧ s.base.tok j = 0 ∧
+        (s.base.phase o = .fresh ∨ s.base.phase o = .body)) ∧
+    (∀ o, s.base.phase o = .fresh ∨ s.base.phase o = .body ∨ s.base.phase o = .exited) := by
+  have hs' : C13.Stuck s.base := by
+    intro e he
+    have := hs (.base e) (by
+      simp only [JoinCatch.step]
+      cases h : Join.step s.base e with
+      | none => exact absurd h he
+      | some b => simp)
+    exact this
+  exact Join.join_returns_of_inv s.base hr.cinv.base hs'
+
 /-! ## (4) the variant that registers before testing (seeded change C13f) -/
 
 /-- tasks: 1 = creator, 2 = first target (handle 1), 3 = second target (handle 2), 4 = J (handle 3).  J is interrupted
@@ -263,6 +292,13 @@ example : ∃ s, runLog JoinCatch.step JoinCatch.init (pendLog.take 13 ++
     [.base (.ipReq 4 true), .base (.jnLock 2 4), .base (.jnChecked 2 4 3), .base (.ipHit 4 true), .base (.ipClear 4),
      .caught 4]) = some s ∧ s.handled 4 = 2 ∧ s.entryIntr 4 = 2 ∧ s.nreq 4 = 2 ∧ s.ndel 4 = 2 ∧
      s.base.hid 2 = some 3 ∧ s.base.funcs 3 = [] := by
+  refine ⟨_, rfl, ?_⟩
+  decide
+
+/-- a stuck state with J legitimately blocked in its second join (after the handled interruption) exists: `pendLog`
+    ends in one when nobody releases target 3 (J suspended, no token, target 3 in its body) -/
+example : ∃ s, runLog JoinCatch.step JoinCatch.init (pendLog ++ [.base (.joinable 1 1 false)]) = some s ∧
+    s.base.jpc 4 = .susp 2 3 ∧ s.base.tok 4 = 0 ∧ s.base.phase 3 = .body ∧ s.base.phase 2 = .exited ∧ s.handled 4 = 1 := by
   refine ⟨_, rfl, ?_⟩
   decide
 
